@@ -1576,6 +1576,8 @@ def _self_field(e: ast.expr) -> ast.expr | None:
         return e
     if isinstance(e, ast.Subscript) and isinstance(e.slice, ast.Constant) and isinstance(e.value, ast.Attribute) and e.value.attr == 'shape' and _simple(e.value):
         return e          # an extent: x.shape[k]
+    if isinstance(e, ast.Subscript) and isinstance(e.slice, (ast.Constant, ast.Name)) and isinstance(e.value, ast.Attribute) and _simple(e.value):
+        return e          # an entry of a table held in a field: obj.table[k]
     return None
 
 
